@@ -41,6 +41,9 @@ pub enum Op {
     RoRemove { view: usize, k: Vec<u8> },
     /// several get / set / remove on ONE mutable view instance (g = get, s = set, r = remove)
     Seq { view: usize, steps: Vec<(u8, Vec<u8>, Vec<u8>)> },
+    /// write, through the view, exactly the value that the base holds under the raw key that is byte-identical
+    /// to this view key (if it holds one)
+    SetAsRaw { view: usize, k: Vec<u8> },
     /// raw writer on the base
     RawSet { k: Vec<u8>, v: Vec<u8> },
     RawRemove { k: Vec<u8> },
@@ -313,7 +316,16 @@ impl Engine for Pfx07 {
                 }
                 4 => Op::RoSet { view, k: small_key(rng) },
                 5 => Op::RoRemove { view, k: small_key(rng) },
-                6 => Op::RawSet { k: small_key(rng), v: val() },
+                6 => {
+                    let k = small_key(rng);
+                    if rng.chance(1, 3) {
+                        // the raw entry first, then the same bytes written through a view under the same key
+                        ops.push(Op::RawSet { k: k.clone(), v: val() });
+                        Op::SetAsRaw { view, k }
+                    } else {
+                        Op::RawSet { k, v: val() }
+                    }
+                }
                 7 => Op::RawRemove { k: small_key(rng) },
                 9 => {
                     // get / remove / get and similar on the same key and the same view instance
@@ -383,6 +395,20 @@ impl Engine for Pfx07 {
                     let mut rk = prefixes[vi].clone();
                     rk.extend_from_slice(k);
                     raw.insert(rk, v.clone());
+                }
+                Op::SetAsRaw { view, k } => {
+                    let vi = view % nv;
+                    if let Some(v) = raw.get(k).cloned() {
+                        let r = catch_unwind(AssertUnwindSafe(|| with_view_mut(&mut app, &paths[vi], |s| s.set(k, &v))));
+                        if let Err(p) = r {
+                            ctx.fail("C07.panic", format!("set panicked: {}", panic_message(&p)));
+                            break;
+                        }
+                        let mut rk = prefixes[vi].clone();
+                        rk.extend_from_slice(k);
+                        raw.insert(rk, v);
+                        ctx.stats.probe("view_set_of_the_value_under_the_same_raw_key");
+                    }
                 }
                 Op::Remove { view, k } => {
                     let vi = view % nv;
@@ -592,7 +618,7 @@ impl Engine for Pfx07 {
                 break;
             }
             // after every write: every view equals its model window (full range, one order per step)
-            if matches!(op, Op::Set { .. } | Op::Remove { .. } | Op::Seq { .. } | Op::RawSet { .. } | Op::RawRemove { .. } | Op::RawNear { .. }) {
+            if matches!(op, Op::Set { .. } | Op::SetAsRaw { .. } | Op::Remove { .. } | Op::Seq { .. } | Op::RawSet { .. } | Op::RawRemove { .. } | Op::RawNear { .. }) {
                 let desc = ctx.stats.steps % 2 == 0;
                 for vi in 0..nv {
                     if ctx.viol.is_empty() {
@@ -651,6 +677,7 @@ impl Engine for Pfx07 {
                         Some(match op.clone() {
                             Op::Set { view, k, v } => Op::Set { view: remap(view)?, k, v },
                             Op::Remove { view, k } => Op::Remove { view: remap(view)?, k },
+                            Op::SetAsRaw { view, k } => Op::SetAsRaw { view: remap(view)?, k },
                             Op::Get { view, k } => Op::Get { view: remap(view)?, k },
                             Op::Range { view, start, end, desc } => Op::Range { view: remap(view)?, start, end, desc },
                             Op::Seq { view, steps } => Op::Seq { view: remap(view)?, steps },
